@@ -745,4 +745,101 @@ theorem sLine_found (sid : Nat) (t : Tree) :
   rw [strippedLines]
   simp only [List.cons_append, List.find?_cons, isS_sLine]
 
+
+/-! ### paths and the constituent list -/
+
+theorem mem_pathsL_of_get? : ∀ (ts : List Tree) (n i : Nat) (k : Tree) (p : Path), ts[i]? = some k → p ∈ paths k →
+    (n + i) :: p ∈ pathsL ts n
+  | [], _, _, _, _, h, _ => by simp at h
+  | t :: ts, n, 0, k, p, h, hp => by
+    simp only [List.getElem?_cons_zero, Option.some.injEq] at h
+    subst h
+    rw [pathsL]
+    exact List.mem_append_left _ (List.mem_map.2 ⟨p, hp, rfl⟩)
+  | t :: ts, n, i + 1, k, p, h, hp => by
+    simp only [List.getElem?_cons_succ] at h
+    rw [pathsL]
+    have := mem_pathsL_of_get? ts (n + 1) i k p h hp
+    rw [show n + 1 + i = n + (i + 1) by omega] at this
+    exact List.mem_append_right _ this
+
+theorem mem_paths_of_get? : ∀ (p : Path) (t s : Tree), get? t p = some s → p ∈ paths t
+  | [], t, _, _ => nil_mem_paths t
+  | i :: p, .leaf _ _, s, h => by simp [get?] at h
+  | i :: p, .node f ks, s, h => by
+    simp only [get?] at h
+    cases hk : ks[i]? with
+    | none => simp [hk] at h
+    | some k =>
+      simp only [hk] at h
+      have := mem_pathsL_of_get? ks 0 i k p hk (mem_paths_of_get? p k s h)
+      rw [Nat.zero_add] at this
+      rw [paths]
+      exact List.mem_cons_of_mem _ this
+
+theorem mem_postorderP_iff (t : Tree) (p : Path) : p ∈ postorderP t ↔ (get? t p).isSome = true := by
+  rw [(postorderP_perm_paths t).mem_iff]
+  constructor
+  · exact get?_isSome_of_mem_paths t p
+  · intro h
+    obtain ⟨s, hs⟩ := Option.isSome_iff_exists.1 h
+    exact mem_paths_of_get? p t s hs
+
+/-- the writer's selection of constituents -/
+def consSel (t : Tree) (p : Path) : Option (Path × Tree) :=
+  match t.get? p with
+  | some (node f (k :: ks)) => some (p, node f (k :: ks))
+  | _ => none
+
+theorem consList_eq (t : Tree) : consList t = t.postorderP.filterMap (consSel t) := rfl
+
+theorem consSel_some (t : Tree) (p : Path) (ps : Path × Tree) :
+    consSel t p = some ps ↔ ps.1 = p ∧ ∃ f k ks, get? t p = some (node f (k :: ks)) ∧ ps.2 = node f (k :: ks) := by
+  unfold consSel
+  split
+  · rename_i f k ks h
+    constructor
+    · intro e
+      simp only [Option.some.injEq] at e
+      subst e
+      exact ⟨rfl, f, k, ks, h, rfl⟩
+    · rintro ⟨e1, f', k', ks', h', e2⟩
+      rw [h] at h'
+      simp only [Option.some.injEq] at h'
+      rw [← h'] at e2
+      cases ps
+      simp only at e1 e2
+      rw [e1, e2]
+  · rename_i hne
+    constructor
+    · intro e; cases e
+    · rintro ⟨_, f', k', ks', h', _⟩
+      exact absurd h' (hne f' k' ks')
+
+theorem mem_consList (t : Tree) (ps : Path × Tree) :
+    ps ∈ consList t ↔ ∃ f k ks, get? t ps.1 = some (node f (k :: ks)) ∧ ps.2 = node f (k :: ks) := by
+  rw [consList_eq, List.mem_filterMap]
+  constructor
+  · rintro ⟨p, _, h⟩
+    obtain ⟨e, f, k, ks, h1, h2⟩ := (consSel_some t p ps).1 h
+    exact ⟨f, k, ks, e ▸ h1, h2⟩
+  · rintro ⟨f, k, ks, h1, h2⟩
+    refine ⟨ps.1, (mem_postorderP_iff t ps.1).2 (by rw [h1]; rfl), (consSel_some t ps.1 ps).2 ⟨rfl, f, k, ks, h1, h2⟩⟩
+
+/-- the root constituent is listed last, once -/
+theorem consList_root (f : Fields) (k : Tree) (ks : List Tree) :
+    ∃ init, consList (node f (k :: ks)) = init ++ [([], node f (k :: ks))] ∧ ∀ ps ∈ init, ps.1 ≠ [] := by
+  have hn := postorderP_nodup (node f (k :: ks))
+  rw [postorderP] at hn
+  refine ⟨(flattenSorted (postorderPK (k :: ks) 0)).filterMap (consSel (node f (k :: ks))), ?_, ?_⟩
+  · rw [consList_eq, postorderP, List.filterMap_append]
+    rfl
+  · intro ps hps e
+    obtain ⟨p, hp, h⟩ := List.mem_filterMap.1 hps
+    have := ((consSel_some _ p ps).1 h).1
+    rw [e] at this
+    subst this
+    have := (List.nodup_append.1 hn).2.2 [] hp [] (by simp)
+    exact this rfl
+
 end TT.Lemmas.TigerRT
